@@ -68,6 +68,15 @@ def data_eq(a, b):
     return False
 
 
+
+def copy_deep(v):
+    """unary +: every nested array is copied, each occurrence on its own — an array that occurs twice in the
+    original gives two independent copies (the property promises that the copy shares nothing with the original,
+    not that sharing inside the copy mirrors sharing inside the original)"""
+    if isinstance(v, list):
+        return [copy_deep(x) for x in v]
+    return v
+
 class HeapGen:
     VARS = ['g1', 'g2', 'gx', 'ga']
 
@@ -116,7 +125,7 @@ class HeapGen:
                 env[a] = Bv
                 stmts.append('%s = %s' % (a, b))
             elif op == 'copy':
-                env[a] = copy.deepcopy(Bv)
+                env[a] = copy_deep(Bv)
                 stmts.append('%s = +%s' % (a, b))
             elif op == 'plus':
                 c = r.choice(self.VARS)
